@@ -304,7 +304,7 @@ def model_expr(case):
             evs.append('(SNext %s)' % g_nat(e[1]))
         else:
             evs.append('(SClose %s)' % g_nat(e[1]))
-    return '(run_events_x 300 %s %s)' % (g_list(evs), g_nat(case['nvars']))
+    return '(OL [run_events_x 300 %s %s; spec_events 300 %s %s])' % (g_list(evs), g_nat(case['nvars']), g_list(evs), g_nat(case['nvars']))
 
 # ------------------------------------------------------------------ implementation side
 
@@ -381,9 +381,40 @@ def _ev_text(e):
         return 'g%d = unify(%s, %s)' % (e[1], terms.show_term(e[2]), terms.show_term(e[3]))
     return {'next': 'next(g%d)', 'close': 'g%d.close()', 'drop': 'del g%d'}[e[0]] % e[1]
 
+def _spec_vs_model(case, mo, spec):
+    """inside Coq: the specification's trace (Unify/SchedSpec.v: srun) against the generator model's, and the
+    reference unifier of the oracle against the specification (same domain, same number of active equations)"""
+    ref = RefRun()
+    defined = True
+    counts = []
+    for e in case['events']:
+        w = ref.step(e)
+        if w is None or w == 'any' or not ref.lifo:
+            defined = False
+            break
+        counts.append(len(ref.stack))
+    if defined != (spec[0] == 'ok'):
+        return 'harness problem: the reference unifier of the oracle and the Coq specification disagree about the domain (reference: %s, specification: %s)' % (
+            'inside' if defined else 'outside', spec[0])
+    if not defined:
+        return None
+    exp = mo[1]
+    if len(spec[1]) != len(exp):
+        return 'model problem: specification and generator model have traces of different length'
+    for k, (sp, x) in enumerate(zip(spec[1], exp)):
+        if sp[:2] != x[:2]:
+            return 'model problem: after event %d the specification (srun) and the generator model differ (%r / %r)' % (k, sp, x)
+        if sp[2] != counts[k]:
+            return 'harness problem: after event %d the specification has %d active equations, the reference %d' % (k, sp[2], counts[k])
+    return None
+
 def compare(case, io, mo):
+    mo, spec = mo
     if mo[0] == 'oof':
         return 'model ran out of fuel (harness problem)'
+    r = _spec_vs_model(case, mo, spec)
+    if r:
+        return r
     exp = mo[1]
     got = io['obs']
     for k, x in enumerate(exp):
